@@ -26,6 +26,8 @@ CatalogueMsgs == <<
   [kind |-> "response", idk |-> "str", id |-> [t |-> "str", v |-> "t", n |-> NoNum], pay |-> "true", blen |-> 40, rlen |-> 40],
   [kind |-> "response", idk |-> "num", id |-> [t |-> "num", v |-> "11", n |-> 11], pay |-> "false", blen |-> 40, rlen |-> 40],
   [kind |-> "response", idk |-> "num", id |-> [t |-> "num", v |-> "12", n |-> 12], pay |-> "errdata", blen |-> 109, rlen |-> 109],
-  [kind |-> "call", idk |-> "num", id |-> [t |-> "num", v |-> "13", n |-> 13], pay |-> "object", blen |-> 59, rlen |-> 59]
+  [kind |-> "call", idk |-> "num", id |-> [t |-> "num", v |-> "13", n |-> 13], pay |-> "object", blen |-> 59, rlen |-> 59],
+  [kind |-> "call", idk |-> "str", id |-> [t |-> "str", v |-> "", n |-> NoNum], pay |-> "string", blen |-> 50, rlen |-> 50],
+  [kind |-> "response", idk |-> "str", id |-> [t |-> "str", v |-> "", n |-> NoNum], pay |-> "string", blen |-> 37, rlen |-> 37]
 >>
 =============================================================================
